@@ -70,29 +70,11 @@ fn r<T>(x: anchor_lang::Result<T>) -> Option<T> {
     x.ok()
 }
 
-pub fn kprice64(l: i128, c: u64, d: u8, p: i64) -> Option<i64> {
-    // the exact sequence of state/price.rs for Kamino/Solend + Pyth
-    let (tl, tc) = scale_supplies(I80F48::from_bits(l), c, d)?;
-    if tc > I80F48::ZERO {
-        let ratio = tl.wrapping_div(tc);
-        adjust_i64(p, ratio)
-    } else {
-        Some(p)
-    }
-}
-pub fn kprice128(l: i128, c: u64, d: u8, p: i128) -> Option<i128> {
-    let (tl, tc) = scale_supplies(I80F48::from_bits(l), c, d)?;
-    if tc > I80F48::ZERO {
-        let ratio = tl.wrapping_div(tc);
-        adjust_i128(p, ratio)
-    } else {
-        Some(p)
-    }
-}
-
 pub fn gen(rng: &mut Rng, n: usize, out: &mut Vec<String>) {
     // a tenth of the family: the staked-collateral re-scaling through the REAL oracle adapter
     crate::mon_venue::staked_lines(rng, n / 10, out);
+    // a fifth: the six venue-backed arms' re-scaling, taken from the REAL adapter on real reserve / spot-market accounts
+    crate::mon_venue::venue_value_lines(rng, n / 5, out);
     let n = n - out.len().min(n);
     for i in 0..n {
         let line = match i % 21 {
@@ -229,14 +211,10 @@ pub fn gen(rng: &mut Rng, n: usize, out: &mut Vec<String>) {
                 let x = if rng.chance(1, 6) { -(rng.below(100) as i128) } else { (rng.u128() >> 1) as i128 >> rng.below(127) };
                 format!("ig.dadj128 {} {} => {}", cum, x, o(r(spot_market(6, cum, 0).adjust_i128(x))))
             }
-            19 => {
-                let (l, c, d, p) = gen_reserve_price(rng);
-                let p64 = (p.min(i64::MAX as i128)) as i64;
-                format!("ig.kprice64 {} {} {} {} => {}", l, c, d, p64, o(kprice64(l, c, d, p64)))
-            }
             _ => {
-                let (l, c, d, p) = gen_reserve_price(rng);
-                format!("ig.kprice128 {} {} {} {} => {}", l, c, d, p, o(kprice128(l, c, d, p)))
+                // (the Kamino / Solend / Drift price pipelines are taken from the real adapter: venue_value_lines)
+                crate::mon_venue::venue_value_lines(rng, 1, out);
+                continue;
             }
         };
         out.push(line);
